@@ -324,22 +324,43 @@ def _pn_fields(facts, ctx):
     r = drop_lv(interp(facts, body).ret)
     if r[0] == 'post' and r[2] == 0 and is_call(r[1], 'sub_assign') and len(r[1][2]) == 2:
         r = ('call', r[1][1], r[1][2])      # `total -= x; total` is `total - x`
-    if r[0] == 'phi' and len(r[1]) == 2:
-        # `if n.is_zero() { return p }  p - n`: the minuend alone where the subtrahend is zero, the difference elsewhere
+    if r[0] == 'phi' and len(r[1]) in (2, 3):
+        # `if n.is_zero() { return p }  [if p.is_zero() { return -n }]  p - n`: the minuend alone where the subtrahend is zero, the
+        # negated subtrahend where the minuend is zero, the difference elsewhere
         alts = [drop_lv(a_) for a_ in r[1]]
-        for d_, m_ in ((alts[0], alts[1]), (alts[1], alts[0])):
-            if is_call(d_, ('sub', 'sub_assign')) and len(d_[2]) == 2 and versionless(strip_lossless(d_[2][0])) == versionless(strip_lossless(m_)):
-                sub_t = versionless(strip_lossless(d_[2][1]))
+        subs = [a_ for a_ in alts if is_call(a_, ('sub', 'sub_assign')) and len(a_[2]) == 2]
+        if len(subs) == 1:
+            d_ = subs[0]
+            min_t, sub_t = versionless(strip_lossless(d_[2][0])), versionless(strip_lossless(d_[2][1]))
 
-                def zero_atom(t, sub_t=sub_t):
-                    if is_call(t, 'is_zero') and len(t[2]) == 1 and versionless(strip_lossless(t[2][0])) == sub_t:
-                        return 'z'
-                    return None
+            def is_short(a_):
+                a_ = strip_lossless(a_)
+                if versionless(a_) == min_t:
+                    return True
+                return is_call(a_, 'neg') and len(a_[2]) == 1 and versionless(strip_lossless(a_[2][0])) == sub_t
+
+            def zero_atom(t):
+                if is_call(t, 'is_zero') and len(t[2]) == 1:
+                    x_ = versionless(strip_lossless(t[2][0]))
+                    return 'zs' if x_ == sub_t else 'zm' if x_ == min_t else None
+                return None
+            if all(is_short(a_) for a_ in alts if a_ is not d_):
                 it_ = interp(facts, body)
-                ev_ = Evaluator(facts, bool_atom=zero_atom, assumption={'z': False})
+                ev_ = Evaluator(facts, bool_atom=zero_atom, assumption={'zs': False, 'zm': False})
                 rc_ = Reach(facts, body, ev_)
                 live = [w_ for k_, w_ in it_.ret_assigns.items() if k_[0] in rc_.reachable]
-                if ev_.hits and len(live) == 1 and drop_lv(live[0].val) == d_:
+                # the minuend alone only where the subtrahend is zero, the negated subtrahend only where the minuend is zero
+                ok_short = True
+                for zs_, zm_, bad in ((False, None, min_t), (None, False, 'neg')):
+                    asm_ = {k_: v_ for k_, v_ in (('zs', zs_), ('zm', zm_)) if v_ is not None}
+                    rcw = Reach(facts, body, Evaluator(facts, bool_atom=zero_atom, assumption=asm_))
+                    for k_, w_ in it_.ret_assigns.items():
+                        if k_[0] in rcw.reachable:
+                            for a_ in phi_alts(w_.val):
+                                a_ = strip_lossless(drop_lv(a_))
+                                if (bad == 'neg' and is_call(a_, 'neg')) or (bad != 'neg' and versionless(a_) == bad):
+                                    ok_short = False
+                if ev_.hits and len(live) == 1 and drop_lv(live[0].val) == d_ and ok_short:
                     r = d_
     if not (is_call(r, ('sub', 'sub_assign')) and len(r[2]) == 2):
         return None, None, body, r
